@@ -1,6 +1,7 @@
 import re
 import typing
 from collections import deque
+import decimal
 from decimal import Decimal
 from enum import Enum, EnumMeta
 from functools import partial
@@ -889,7 +890,8 @@ class Constraints:
         if isinstance(value, Decimal):
             # if current decimal is Decimal('1.3') and decimal places is 2
             # we will make it Decimal('1.30') by using round
-            return round(value, d)
+            # (with room for every digit: the default context fails on integer digits + places > 28)
+            return value.quantize(Decimal((0, (1,), -d)), context=decimal.Context(prec=max(28, digits + d)))
         return value
 
     @classmethod
